@@ -49,6 +49,20 @@ def handle (j : Json) : Json :=
     Json.mkObj [("answers", jl r.2.2), ("cores", jbl r.1.cores), ("gpus", jbl r.1.gpus)]
   else if op == "life" then
     lsJson (lrun (jbool j "flag") {} ((jarr j "choices").map (fun c => choiceOf (asStr c))))
+  else if op == "fwd" then
+    let keyOf : Json → Option Nat := fun k => match k with | .null => none | v => some (asNat v)
+    let r := (jarr j "ops").foldl (fun (s : Fwd) o =>
+      let a := asArr o
+      let kind := asStr a[0]!
+      if kind == "incoming" then
+        fwdStep s (.incoming ((asArr a[1]!).map (fun g => (keyOf (asArr g)[0]!, (asArr (asArr g)[1]!).map asNat))))
+      else if kind == "register" then fwdStep s (.register (asNat a[1]!))
+      else if kind == "unregister" then fwdStep s (.unregister (asNat a[1]!))
+      else fwdStep s (.cancel ((asArr a[1]!).map asNat))) { queues := [], backlog := [], delivered := [], failed := [], canceled := [] }
+    Json.mkObj [("queues", jnl r.queues),
+                ("backlog", jl (r.backlog.map (fun e => jl [(match e.1 with | some m => jn m | none => Json.null), jnl e.2]))),
+                ("delivered", jl (r.delivered.map (fun e => jl [jn e.1, jn e.2]))),
+                ("failed", jnl r.failed), ("canceled", jnl r.canceled)]
   else if op == "route" then
     let m := modeOf (jstr j "mode")
     Json.mkObj [("master", Json.str (match masterRoute m with | .agent => "agent" | .workers => "workers")),
